@@ -15,6 +15,7 @@ Ltac dmatch :=
   end.
 
 Section Esc.
+Variable cfg : config.
 Variable C : callees.
 Variable k : kind.
 Hypothesis HC : callees_no_escape C.
@@ -81,7 +82,7 @@ Proof.
   match goal with E : c_hdrs C ?p ?h = HEscape |- _ => exfalso; exact (H2 p h E) end.
 Qed.
 
-Lemma on_body_complete_noesc v i b e : on_body_complete C k v i b = inr e -> e <> EEscape.
+Lemma on_body_complete_noesc i b e : on_body_complete cfg C k i b = inr e -> e <> EEscape.
 Proof.
   unfold on_body_complete. intros H.
   repeat dmatch; try congruence; try (injection H as <-; congruence);
@@ -89,24 +90,24 @@ Proof.
   repeat match goal with E : inr _ = inr _ |- _ => injection E as <- end; try congruence.
 Qed.
 
-Lemma after_headers_noesc i b e : after_headers C k i b = TErr e -> e <> EEscape.
+Lemma after_headers_noesc i b e : after_headers cfg C k i b = TErr e -> e <> EEscape.
 Proof.
   unfold after_headers. intros H.
   repeat dmatch; try congruence; injection H as <-;
   [eapply on_body_complete_noesc; eauto | eapply parse_body_noesc; eauto].
 Qed.
 
-Lemma parse_headers_noesc le h b e : parse_headers le h b = Fail e -> e <> EEscape.
+Lemma parse_headers_noesc le h b e : parse_headers cfg le h b = Fail e -> e <> EEscape.
 Proof. unfold parse_headers. intros H. repeat dmatch; try congruence; injection H as <-; congruence. Qed.
 
-Lemma after_startline_noesc i b e : after_startline C k i b = TErr e -> e <> EEscape.
+Lemma after_startline_noesc i b e : after_startline cfg C k i b = TErr e -> e <> EEscape.
 Proof.
   unfold after_startline. intros H.
   repeat dmatch; try congruence; try (eapply after_headers_noesc; eauto; fail);
   injection H as <-; [eapply on_headers_complete_noesc; eauto | eapply parse_headers_noesc; eauto].
 Qed.
 
-Lemma turn_noesc s e : turn_of C k s = TErr e -> e <> EEscape.
+Lemma turn_noesc s e : turn_of cfg C k s = TErr e -> e <> EEscape.
 Proof.
   unfold turn_of, parse_startline. intros H.
   repeat dmatch; try congruence; try (eapply after_startline_noesc; eauto; fail);
@@ -115,18 +116,18 @@ Proof.
   match goal with E : c_start C ?l = SlEscape |- _ => exfalso; exact (H1 l E) end.
 Qed.
 
-Lemma loop_noesc fuel : forall s acc s' ms e, loop C k fuel s acc = (s', ms, Some e) -> e <> EEscape.
+Lemma loop_noesc fuel : forall s acc s' ms e, loop cfg C k fuel s acc = (s', ms, Some e) -> e <> EEscape.
 Proof.
   induction fuel as [|f IH]; intros s acc s' ms e; cbn [loop].
   - destruct (buf s); intros H; inversion H; subst; congruence.
   - destruct (buf s) eqn:B; [intros H; inversion H|].
-    destruct (turn_of C k s) eqn:T.
+    destruct (turn_of cfg C k s) eqn:T.
     + intros H; inversion H.
     + apply IH.
     + intros H. inversion H; subst. eapply turn_noesc; eauto.
 Qed.
 
-Theorem parse_no_escape s data s' ms e : parse C k s data = (s', ms, Some e) -> e <> EEscape.
+Theorem parse_no_escape s data s' ms e : parse cfg C k s data = (s', ms, Some e) -> e <> EEscape.
 Proof. unfold parse. apply loop_noesc. Qed.
 
 End Esc.
